@@ -400,6 +400,15 @@ func c10Exec(cs *c10Case, plan *simrt.MapPlan, u *wk.Unit) *wk.Failure {
 			}
 			c = bundleFor("app.m", "t", "m.soy", []msgSpec{{Desc: "impostor", Meaning: cs.Msg.Meaning, Body: []msgPart{{T: "text", S: txt}}}, cs.Msg})
 			idx = 1
+		case "after-meaning-twin":
+			// an earlier message of the same compilation with the same body and another meaning
+			tw := cs.Msg
+			tw.Desc = "twin"
+			if tw.Meaning = "noun"; cs.Msg.Meaning == "noun" {
+				tw.Meaning = "verb"
+			}
+			c = bundleFor("app.m", "t", "m.soy", []msgSpec{tw, cs.Msg})
+			idx = 1
 		default:
 			if _, ok := nestings[cs.Variant]; !ok {
 				return &wk.Failure{Class: "invalid-case", Detail: "variant"}
@@ -784,7 +793,7 @@ func C10(c *wk.Ctx) {
 			// (b) histories
 			do(&c10Case{Msg: m, Others: others, Check: "history", History: 1 + r.Intn(6)}, nil)
 			// (d) contexts
-			for _, v := range []string{"surrounded", "elsewhere", "description", "description-bar", "description-punct", "description-empty", "twice", "after-impostor"} {
+			for _, v := range []string{"surrounded", "elsewhere", "description", "description-bar", "description-punct", "description-empty", "twice", "after-impostor", "after-meaning-twin"} {
 				do(&c10Case{Msg: m, Others: others, Check: "context", Variant: v}, nil)
 			}
 			for _, v := range nestingNames {
